@@ -168,7 +168,7 @@ class LinearFilter(LinearFilterProperties):
           ):
       raise ValueError("Non-causal filter")
     if isinstance(self.denpoly[0], Stream): # Variable output gain
-      den = self.denpoly
+      den = Poly(self.denpoly) # New Poly: this filter should be kept as is
       inv_gain = 1 / den[0]
       den[0] = 0
       den *= inv_gain.copy()
